@@ -85,6 +85,22 @@ def true_values(D, r, p, norig):
                         changed = True
             except Exception:
                 return None
+    # auxiliaries defined only through indicator rows (an if-then-else converted to  b==1 ==> t==x,  b==0 ==> t==y):
+    # the active indicator with an equality body and one unknown variable gives the value
+    changed = len(a) < D.nv
+    while changed:
+        changed = False
+        for c in D.cons:
+            d = c['data']
+            if not c['type'].startswith('IndicatorConstraint[') or d['con']['rhs_or_range'][0] != 'EQ': continue
+            b = d['bin_var']
+            if b not in a or round(a[b]) != d['bin_val']: continue
+            body = d['con']['body']
+            if 'qp_terms' in body: continue
+            unk = [(v, cf) for v, cf in zip(body['vars'], body['coefs']) if v not in a]
+            if len(unk) != 1 or unk[0][1] == 0: continue
+            known = sum(cf * a[v] for v, cf in zip(body['vars'], body['coefs']) if v in a)
+            a[unk[0][0]] = (d['con']['rhs_or_range'][1] - known) / unk[0][1]; changed = True
     if len(a) < D.nv: return None
     return a
 
@@ -394,6 +410,62 @@ def work_infeasflag(job):
 
 
 
+ACC_IND = ACC_NATIVE + ';IfThenConstraint=0'
+
+
+def work_inddev(job):
+    """Indicator rows (if-then-else converted to  b==1 ==> t==x,  b==0 ==> t==y  for an API without a native if-then-else): a
+    binary that is 1 within 1e-8 - as MIP solvers return it, far inside sol:chk:inttol and below anything a row can notice -
+    means 1; the verdict at the point with such binaries must equal the verdict with exact binaries, in every mode that looks at
+    the delivered constraints, and with exact values the verdict is the reference verdict in the exact modes."""
+    global _srv
+    if _srv is None: _srv = flatlib.Server(flatlib.build())
+    st = collections.Counter(); viols = []; classes = set()
+    sh = [t for t in flatgen.all_models('quick', ['shapes']) if ' if' in t[1] or t[1].startswith('if') or '<-if' in t[1] or 'if<-' in t[1]]
+    sh = sh[::3]
+    for fam, name, m in sh:
+        nl = m.nl(); nv = len(m.vars)
+        for mname, bits in (('default', None), ('real-1+8', 9), ('real-8', 8), ('all-1023', 1023)):
+            opts = '' if bits is None else 'sol:chk:mode=%d' % bits
+            r = _srv.request('convert', nl=nl, opts=opts, acc=ACC_IND)
+            st['conversions'] += 1
+            if r.get('status') != 'ok' or 'PLApprox' in r.get('warnings', ''): st['skipped_conversion'] += 1; continue
+            D = Delivered(r, nv)
+            inds = [c['data'] for c in D.cons if c['type'].startswith('IndicatorConstraint[')]
+            if not inds: st['inddev_no_indicator'] += 1; continue
+            for pt in m.grid():
+                pt = list(pt)
+                bounds_ok, cons_ok = ref_status(m, pt, 'grid')
+                if cons_ok is None: continue
+                a = true_values(D, r, pt, nv)
+                if a is None: st['aux_not_determined'] += 1; continue
+                x = [a[i] for i in range(D.nv)]
+                v0 = _srv.request('check', x=','.join(repr(float(t)) for t in x), objs='', infeas='0')
+                st['checks'] += 1
+                got0 = not v0.get('ok')
+                if mname == 'real-1+8' and got0 != (not (bounds_ok and cons_ok)):
+                    viols.append(('C07 %s mode=%s cfg=indicators' % ('missed-violation' if not got0 else 'spurious-violation', mname),
+                                  {'model': m.describe(), 'point': pt, 'x': x, 'opts': opts, 'answer': v0},
+                                  {'nl': nl, 'opts': opts, 'acc': ACC_IND, 'x': x, 'objs': ''}))
+                bs = sorted(set(d['bin_var'] for d in inds if x[d['bin_var']] == 1.0))
+                if not bs: st['inddev_no_binary_at_1'] += 1; continue
+                y = list(x)
+                for b in bs: y[b] = 1.0 - 1e-8
+                v1 = _srv.request('check', x=','.join(repr(float(t)) for t in y), objs='', infeas='0')
+                st['checks'] += 1
+                got1 = not v1.get('ok')
+                classes.add('inddev|%s|exact=%s|nearly1=%s' % (mname, 'reported' if got0 else 'silent', 'reported' if got1 else 'silent'))
+                if got0 != got1:
+                    viols.append(('C07 %s mode=%s: indicator binary at 1-1e-8 instead of 1 changes the verdict' % (
+                                      'missed-violation' if got0 else 'spurious-violation', mname),
+                                  {'model': m.describe(), 'point': pt, 'x': y, 'binaries': bs, 'opts': opts, 'answer_exact': v0, 'answer_nearly1': v1},
+                                  {'nl': nl, 'opts': opts, 'acc': ACC_IND, 'x': y, 'objs': ''}))
+                elif got0: st['violations_expected_and_reported'] += 1
+                else: st['clean_expected_and_clean'] += 1
+    return dict(st), viols[:20], sorted(classes), {'family': 'indicator binary at 1-1e-8', 'models': len(sh)}
+
+
+
 def models(tier):
     fams = ['linmix', 'canon', 'uenc', 'sharing', 'fracint', 'bounds', 'dvars', 'compl', 'sos', 'cones'] if tier == 'quick' else None
     out = []
@@ -425,7 +497,7 @@ def main(tier, seed):
     jobs = [(fam, name, m, tier, i) for i, (fam, name, m) in enumerate(models(tier))]
     tot = collections.Counter(); classes = set()
     with Pool(vcheck.NCPU) as pool:
-        pending = [pool.apply_async(work_round, (None,)), pool.apply_async(work_tol, (None,)), pool.apply_async(work_auxdev, (None,)), pool.apply_async(work_infeasflag, (None,))]
+        pending = [pool.apply_async(work_round, (None,)), pool.apply_async(work_tol, (None,)), pool.apply_async(work_auxdev, (None,)), pool.apply_async(work_infeasflag, (None,)), pool.apply_async(work_inddev, (None,))]
         for pd in pending:
             st, viols, cl, sample = pd.get()
             tot.update(st); classes.update(cl); chk.sample(sample)
